@@ -21,6 +21,15 @@ function analyse (resp, config) {
   }
   if (!resp.reparse || !resp.reparse.ok) { out.contentUnparsable = resp.reparse ? (resp.reparse.error || resp.reparse.panic) : 'no reparse'; return out }
   out.outKind = resp.reparse.kind
+  // independent of the erasure: every call `_ddiast.<name>(…)` anywhere in the content (the prologue only assigns)
+  let sites = 0
+  ;(function w (n) {
+    if (Array.isArray(n)) { n.forEach(w); return }
+    if (!isObj(n)) return
+    if (n.type === 'CallExpression' && isObj(n.callee) && n.callee.type === 'MemberExpression' && isObj(n.callee.object) && n.callee.object.type === 'Identifier' && n.callee.object.value === '_ddiast') sites++
+    for (const k of Object.keys(n)) if (k !== 'span') w(n[k])
+  })(resp.reparse.ast)
+  out.hookCallSites = sites
   const e = erase(resp.reparse.ast, resp.prefix)
   out.erasure = e
   const c = cmpTrees(out.inTree, e.tree, {})
